@@ -312,7 +312,14 @@ def run(ck: Checker):
         if other:
             probs.append(f'records are also filtered by `{norm_text(other[0].ast)}`')
         lev = [t for t in tests if 'levelno' in norm_text(t.ast)]
-        if lev and not ('getEffectiveLevel' in norm_text(lev[0].ast) and isinstance(lev[0].ast.ops[0], ast.GtE)):
+        def _gate_ok(c_):
+            # `record.levelno >= logger.getEffectiveLevel()` or mirrored `logger.getEffectiveLevel() <= record.levelno`
+            if not (isinstance(c_, ast.Compare) and len(c_.ops) == 1):
+                return False
+            l_, r_, o_ = norm_text(c_.left), norm_text(c_.comparators[0]), c_.ops[0]
+            return ('levelno' in l_ and 'getEffectiveLevel' in r_ and isinstance(o_, ast.GtE)) or ('getEffectiveLevel' in l_ and 'levelno' in r_ and isinstance(o_, ast.LtE))
+
+        if lev and not _gate_ok(lev[0].ast):
             probs.append(f'level gate is `{norm_text(lev[0].ast)}`, not `levelno >= effective level`')
         # one get per loop iteration, one handle at most
         rec = gets[0].ast.targets[0].id
